@@ -178,6 +178,21 @@ CATALOGUE = [
         for accessor_name, synt_id in self._LOCAL_SYNTAX.items():
             color_fmt = colors_conf.get_color(synt_id)
 """, note="a synced palette is refreshed only the first time it meets a configuration"),
+    dict(id="m10_shared_border_line", prop="C10", file="ak/ppobj.py",
+         old="""        # 4. one more border_line
+        yield CHText(border_line)
+""",
+         new="""        # 4. one more border_line
+        yield border_line
+""", note="the original defect (fixed in /repo): the very same line object is yielded again; a consumer that edited "
+          "the lines it was handed gets it back edited"),
+    dict(id="m13_set_limits_keeps_state", prop="C13", file="ak/ppobj.py",
+         old="""            self.any_lines_skipped = None
+            self.repr_structure.remove_columns([])
+""",
+         new="""            pass
+""", note="the original defect (fixed in /repo): set_limits() on the format object of a printed table keeps the "
+          "widths and the skipped-lines flag of the last print"),
     dict(id="m13_partial_widths", prop="C13", file="ak/ppobj.py",
          old="""                if widths[i] < col.max_width:
                     widths[i] = max(
@@ -201,6 +216,14 @@ CATALOGUE = [
 """, note="the original defect (fixed in /repo): a synced palette refreshes its accessors only; make_report() "
           "and Palette.get_color() keep the formatters of the previous global configuration"),
     # ------------------------------------------------------------------ C08
+    dict(id="m08_sibling_subclass_eq", prop="C08", file="ak/color.py",
+         old="        if isinstance(other, CHText):\n            # (any CHText: objects of different derived classes are texts too)",
+         new="        if isinstance(other, type(self)):\n            # (any CHText: objects of different derived classes are texts too)",
+         note="the original defect (fixed in /repo): texts of two sibling subclasses of CHText never compare equal"),
+    dict(id="m10_eq_returns_false", prop="C10", file="ak/color.py",
+         old="            return len(self.chunks) == 1 and self.chunks[0] == other\n\n        return NotImplemented\n\n    def __iadd__(self, other):",
+         new="            return len(self.chunks) == 1 and self.chunks[0] == other\n\n        return False\n\n    def __iadd__(self, other):",
+         note="CHText.__eq__ answers False for operands it does not know: text == result never reaches CHTextResult.__eq__"),
     dict(id="m08_subclass_operand", prop="C08", file="ak/color.py",
          old="        elif isinstance(other, CHText):\n            # (any CHText: an object of a derived class",
          new="        elif isinstance(other, type(self)):\n            # (any CHText: an object of a derived class",
